@@ -15,7 +15,7 @@ func init() {
 		Property: "C07",
 		Explanation: "Decides the structural clauses of record-atomic, order-preserving asynchronous file writing for every schedule and stall pattern: " +
 			"(R1) every per-record writer performs at most one fallible enqueue per record on every path, so a full queue rejects a whole record or nothing; header writers with several enqueues only run on a freshly created queue whose capacity exceeds the number of header enqueues; " +
-			"(R3) the enqueue is all-or-nothing: one non-blocking send of the whole parameter, success returns (len,nil), the full-queue arm returns (0, non-nil error); no other function sends on the queue; " +
+			"(R3) the enqueue is all-or-nothing: one non-blocking send of the whole parameter, success returns (len,nil), the full-queue arm returns (0, non-nil error); every function that sends on the queue is a method of the asynchronous writer and has this shape itself (the []byte form, or the string form that converts its parameter); " +
 			"(R4) the queue has a single consumer goroutine started once by the constructor, and every received slice goes straight to the buffered writer (no reordering store); " +
 			"(R5) flush drains the queue until empty before bufio.Flush, the acknowledge send is preceded by the flush on every path, and Flush/Close signal then wait for exactly one acknowledge; " +
 			"(R6) file writers close the asynchronous writer before the file; (R7) the bytes handed to the queue are not backed by a buffer kept in the writer (the queue holds the slice, not a copy). " +
